@@ -44,8 +44,11 @@ Definition wf_elem_c (e : element) : bool :=
 Definition visible (es : list element) : list element :=
   filter (fun e => negb (is_control_glyph (eg e))) es.
 
+(* a title is any text without C0 controls and DEL; bytes 0x80..0x9F are text
+   (UTF-8 continuation bytes): the reference terminal, like terminals in UTF-8
+   mode, does not take them for C1 controls *)
 Definition wf_title (t : list byte) : bool :=
-  forallb (fun b => (32 <=? b) && (b <=? 255) && negb (b =? 127) && negb (b =? 156)) t.
+  forallb (fun b => (32 <=? b) && (b <=? 255) && negb (b =? 127)) t.
 
 (* ---- the relation between belief and terminal (decidable form) ----------- *)
 Definition rend_eqb_v (a b : vcolour) : bool :=
